@@ -46,8 +46,8 @@ P = {
          "idle one none (C03_machine_holds_one_partial, corollary of the C01 invariant with its monitored side condition; "
          "C03_machine_holds_one_flex: unconditional for instances with unordered machine post-buffers). " + TIE),
  "C04": ("Env", "Theorems (Props/C04.v; SMP/Decline, Atomic): env model - a done episode refuses steps (C04_done_raises), terminated and "
-         "truncated are never both set (C04_exclusive), terminated iff the middleware result has no offers and all jobs are in output "
-         "buffers (C04_term_flag), the reported makespan is the clock set to the latest DONE end (C04_makespan_is_clock); a job in an "
+         "truncated are never both set (C04_exclusive), terminated iff the middleware result has no offers and every job lies in an "
+         "output buffer with all its operations done (C04_term_flag; all_in_output as repaired by fix 7fd110d), the reported makespan is the clock set to the latest DONE end (C04_makespan_is_clock); a job in an "
          "OUTPUT buffer has all operations done in every reachable state, so a terminated episode has finished all work "
          "(C04_output_done_partial, C04_terminated_all_done_partial; SMP/OutputDone.v, invariant carried with FE and the AGV-load "
          "invariant; C04_output_done_flex / C04_terminated_all_done_flex: UNCONDITIONAL over plain runs for instances whose machine "
